@@ -187,19 +187,12 @@ func (s *ReverseSuffixSearcher) Find(haystack []byte) *Match {
 		return nil
 	}
 
-	// For matchStartZero (unanchored .* prefix), match starts at the beginning
-	// of the line containing the LAST suffix — .* (AnyCharNotNL) cannot cross \n.
+	// For matchStartZero (`.*` + literal), the leftmost match lies on the FIRST line
+	// that contains the suffix: it starts at that line's beginning and ends with the
+	// last suffix occurrence on that line (FindAt computes exactly this). Taking the
+	// last occurrence in the whole haystack would return the rightmost line's match.
 	if s.matchStartZero {
-		lastPos := bytes.LastIndex(haystack, s.suffixBytes)
-		if lastPos == -1 {
-			return nil
-		}
-		revEnd := lastPos + s.suffixLen
-		if revEnd > len(haystack) {
-			revEnd = len(haystack)
-		}
-		matchStart := lineStartBefore(haystack, 0, lastPos)
-		return NewMatch(matchStart, revEnd, haystack)
+		return s.FindAt(haystack, 0)
 	}
 
 	// For bounded wildcards (e.g., \d+\.\d+\.35), find the FIRST suffix
